@@ -4,6 +4,8 @@ import Driver.C14
 import Driver.C15
 import Driver.C13
 import Driver.C07
+import Driver.C04
+import Driver.C18
 import Driver.C16
 import Driver.C17
 /-! Line-protocol driver: one op per line on stdin (`<Cxx> <op> <args…>`), one answer per line. -/
@@ -17,6 +19,8 @@ def dispatch (line : String) : String :=
   | "C15" :: rest => Driver.C15.handle rest
   | "C13" :: rest => Driver.C13.handle rest
   | "C07" :: rest => Driver.C07.handle rest
+  | "C04" :: rest => Driver.C04.handle rest
+  | "C18" :: rest => Driver.C18.handle rest
   | "C16" :: rest => Driver.C16.handle rest
   | "C17" :: rest => Driver.C17.handle rest
   | _ => "bad-op"
